@@ -729,3 +729,82 @@ def _block_reaches_event(fn, start_block, b, kills):
             continue
         st.extend(s_ for s_ in fn.blocks[x]["succ"] if s_ is not None)
     return False
+
+
+# ---------------------------------------------------------------------------------------------------------------
+def expected_protected_until_cas(ctx, file_suffixes, rid="GUARD.expected-protected-until-cas"):
+    """ABA: the address a CAS expects must stay allocated (guarded) from the moment it was taken from a guard until the CAS"""
+    ctx.rule(rid, "when the expected value of a CAS in container code is the pointer held by a guard_ptr (marked_ptr expected = g.get() / = g), "
+                  "g keeps its protection on every path from that snapshot to the CAS (no reset / reclaim / re-assignment / move-from of g in "
+                  "between): otherwise the node can be reclaimed, its memory re-used for a node that is linked at the same place, and the CAS "
+                  "succeeds on a different node with the same address")
+    from .progress import _lname
+    n_inst = 0
+    for fn in ctx.facts.fns:
+        if not any(s in fn.file for s in file_suffixes) or "/reclamation/" in fn.file or "test/" in fn.file:
+            continue
+        if fn.inlined_helper:
+            continue
+        # release / re-assignment events per guard storage name
+        rel = {}
+        for b, i, e, n in fn.events():
+            k = fn.kids(e)
+            if n["k"] == "call" and n.get("member") and k and "guard_ptr" in fn.nodes[k[0]].get("t", ""):
+                nm = _lname(fn, k[0])
+                leaf = n.get("callee", "?").split("::")[-1]
+                if nm and leaf in ("reset", "reclaim", "operator=", "acquire", "acquire_if_equal", "swap"):
+                    rel.setdefault(nm, []).append(e)
+            elif n["k"] == "call" and n.get("callee") == "std::move" and k and "guard_ptr" in fn.nodes[k[0]].get("t", ""):
+                nm = _lname(fn, k[0])
+                if nm and _consumed(fn, e):
+                    rel.setdefault(nm, []).append(e)
+        for b, i, e, n in fn.events():
+            a = fn.atomic(e)
+            if not a or a["kind"] != "cas":
+                continue
+            k = fn.kids(e)
+            if len(k) < 3:
+                continue
+            exp = k[1]
+            en = fn.nodes[exp]
+            # snapshots: (event that takes the pointer out of guard g, g)
+            snaps = []
+            if en["k"] == "ref" and en.get("dk") == "local":
+                pos = fn.pos()
+                for ev_b, ev_i, ev, dn in fn.events():
+                    rhs = None
+                    if dn["k"] == "decl":
+                        for v in dn["vars"]:
+                            if v["name"] == en["name"] and v.get("vid") in (None, en.get("vid")) and "init" in v:
+                                rhs = v["init"]
+                    elif dn["k"] == "bin" and dn.get("op") == "=" or (dn["k"] == "call" and dn.get("member") and dn.get("callee", "").endswith("operator=")):
+                        kk = fn.kids(ev)
+                        if kk and fn.nodes[kk[0]]["k"] == "ref" and fn.nodes[kk[0]].get("name") == en["name"] and \
+                                fn.nodes[kk[0]].get("vid") in (None, en.get("vid")) and len(kk) > 1:
+                            rhs = kk[1]
+                    if rhs is None:
+                        continue
+                    for x in fn.subtree(rhs):
+                        xn = fn.nodes[x]
+                        if "guard_ptr" in xn.get("t", "") and xn["k"] in ("ref", "member"):
+                            g = _lname(fn, x)
+                            if g:
+                                snaps.append((ev, g))
+            for snap, g in snaps:
+                releases = [r for r in rel.get(g, []) if r != snap]
+                bad = None
+                for r in releases:
+                    # snapshot -> release (snapshot not re-executed) -> CAS (snapshot not re-executed)
+                    if _reaches_without(fn, snap, r, {snap}) and _reaches_without(fn, r, e, {snap}):
+                        bad = r
+                        break
+                n_inst += 1
+                inst = "%s#%s@%s" % (fn.pat, g, a["field"].split("::")[-1])
+                if bad is not None:
+                    ctx.bad(rid, inst, "the CAS on %s at line %d expects the pointer taken from guard '%s' at line %d, but the guard gives up / changes its "
+                                       "protection at line %d (%s) before the CAS: the expected node can be reclaimed and its address re-used (ABA)" % (
+                                           a["field"].split("::")[-1], n.get("l", 0), g, fn.nodes[snap].get("l", 0), fn.nodes[bad].get("l", 0),
+                                           fn.expr(bad)[:50]), fn.where(bad), fn=fn)
+                else:
+                    ctx.ok(rid, inst, "guard '%s' protects the expected node until the CAS" % g, fn.where(e), fn=fn)
+    return n_inst
